@@ -28,12 +28,13 @@ static vf::Trace *g_tr = nullptr;
 static Clock::time_point g_t0;
 static std::atomic<int> g_val{0};
 static std::atomic<bool> g_badTime{false};
+static std::atomic<bool> g_strictTime{true}; // off once the timer service is being stopped (its drain waits use sub-second budgets)
 
 static long long vnow()
 {
   auto ns = std::chrono::duration_cast<std::chrono::nanoseconds>(Clock::now() - g_t0).count();
   long long s = ns / 1000000000LL, r = ns % 1000000000LL;
-  if (r >= 1000) g_badTime = true;
+  if (r >= 1000 && g_strictTime) g_badTime = true;
   return s * 1000 + (r < 1000 ? r : 999);
 }
 
@@ -212,6 +213,7 @@ static std::string runOne(const Case &c, const vf::Options &opt, bool emitSched)
   auto tr = std::make_shared<vf::Trace>();
   g_tr = tr.get();
   g_val = 0;
+  g_strictTime = true;
   tr->add(vf::Ev("Begin").i("max", c.maxEntries).i("dflt", c.dflt).i("sweep", c.sweep));
   vf::Options o = opt;
   o.maxSteps = 60000;
@@ -259,6 +261,7 @@ static std::string runOne(const Case &c, const vf::Options &opt, bool emitSched)
               if (c.teardown == 0)
               {
                 tr->add(vf::Ev("Life").i("t", vnow()).str("op", "stop"));
+                g_strictTime = false; // no map operation follows: time only has to stay monotone from here on
                 timers->stop();
                 tr->add(vf::Ev("Life").i("t", vnow()).str("op", "stopped"));
                 delete map;
@@ -271,6 +274,7 @@ static std::string runOne(const Case &c, const vf::Options &opt, bool emitSched)
                 delete map;
                 tr->add(vf::Ev("Life").i("t", vnow()).str("op", "destroyed"));
                 std::this_thread::sleep_for(std::chrono::seconds(c.sweep + 1)); // a cancelled sweeper must stay silent
+                g_strictTime = false;
                 timers->stop();
                 tr->add(vf::Ev("Life").i("t", vnow()).str("op", "stopped"));
               }
